@@ -1541,3 +1541,42 @@ def _chk_ehep_outside(c):
 
 
 ehep_outside = O.make(_gen_ehep_outside, _chk_ehep_outside, 'det.ehep_outside')
+
+
+# ---- C08: the region selection under a change to LARGER numbers (cm -> 10^-k cm units, us -> 10^-k us units) ----
+# The recorded finding (C08.ehep.region_test) is the absolute tolerance 1e-12 of the closed-boundary test: it bites
+# when the numbers get small (seconds instead of microseconds).  With numbers of order one or larger the band is
+# below 1e-11 relative, so a point farther than 2e-6 (relative) from every polygon edge keeps its region under
+# any up-scaling.  Seeded C08-6 / C02-6 widened the band to 1e-5 (a default argument no longer overridden).
+
+def _gen_units_ehep_up(rng):
+    p = ehep_params(rng)
+    _, cls = load(EHEP)
+    s = cls(**p)
+    name = rng.choice(sorted(s.corners))
+    poly = s.corners[name]
+    i = rng.randrange(len(poly))
+    a, b = poly[i], poly[(i + 1) % len(poly)]
+    lam = rng.uniform(0.05, 0.95)
+    x, t = a[0] + lam * (b[0] - a[0]), a[1] + lam * (b[1] - a[1])
+    # point_on_line's measure |a-p| + |b-p| - |a-b| < tol is quadratic in the distance h from the edge (h^2 / 2 len), so the
+    # closed-boundary band is ~ sqrt(2 len tol) wide: ~1e-6 on the unchanged tree (tol = 1e-12), relatively narrower still when
+    # lengths AND times are multiplied by the same factor; ~4e-3 with tol = 1e-5
+    d = rng.choice([-1, 1]) * 10 ** rng.uniform(-4.5, -2.5)
+    ell = math.hypot(b[0] - a[0], b[1] - a[1])
+    x, t = x - d * (b[1] - a[1]), t + d * (b[0] - a[0])        # moved off the edge, perpendicularly, by |d| x its length
+    k = 10.0 ** rng.choice([1, 2, 3])
+    return dict(params=p, x=float(x), t=float(t), M=1.0, L=k, T=k)
+
+
+def _chk_units_region_up(c):
+    if c['t'] <= 0:
+        return None
+    r = _chk_units_ehep(c)
+    if r is not None and r['site'] == 'EHEP:units-region':
+        return _fail('EHEP:units-region:upscaled', r['detail'] + ' for x=%r t=%r when lengths are multiplied by %g and times by %g'
+                     % (c['x'], c['t'], c['L'], c['T']))
+    return None
+
+
+units_ehep_region_up = O.make(_gen_units_ehep_up, _chk_units_region_up, 'det.units_ehep_region_up')
